@@ -85,6 +85,11 @@ fn guesses(n: usize) -> Vec<Vec<f64>> {
 }
 
 fn hostile_case(d: &D, idx: u64, acc: &mut Acc) {
+    hostile_case_with(d, idx, acc, &TOLS, &[0, 1, 2, 3, 4, 5, 6, 7, 8]);
+}
+/// `budgets` must be ascending; an Ok(k) answer is the same for every budget >= k (deterministic solvers), so the
+/// largest budget alone already exposes every success within it
+fn hostile_case_with(d: &D, idx: u64, acc: &mut Acc, tols: &[f64], budgets: &[usize]) {
     let n = d.len();
     let a = sparse_of(d, 0);
     let j = Judge { d, a: &a, anorm: norm_inf_mat(d) };
@@ -94,9 +99,9 @@ fn hostile_case(d: &D, idx: u64, acc: &mut Acc) {
     }
     for b in rhs3(n).iter() {
         for x0 in guesses(n).iter() {
-            for &tol in TOLS.iter() {
+            for &tol in tols.iter() {
                 for &s in SOLVERS.iter() {
-                    for budget in 0..=8usize {
+                    for &budget in budgets.iter() {
                         let key = || format!("{:?} A={:?} b={:?} x0={:?} tol={:e} budget={}", s, d, b, x0, tol, budget);
                         let mut local = Acc::new("t");
                         let res = catch(|| j.run(s, b, x0, budget, tol, &mut local));
@@ -209,6 +214,55 @@ fn main() {
             hostile_case(&d, idx, acc);
         },
     );
+    {
+        // entries of mixed scale: residual norms span twelve orders of magnitude inside one run
+        let lw = [0.0, 1.0, -1.0, 2.0, 1e-6, -1e-6, 1e6, -1e6, 0.5, -3.0];
+        ctx.lattice(
+            "hostile 2x2, mixed scale: all matrices over {0,1,-1,2,+-1e-6,+-1e6,1/2,-3}",
+            pow(10, 4),
+            |idx| format!("{:?}", mat_from(idx, 2, &lw)),
+            |idx, acc| {
+                let d = mat_from(idx, 2, &lw);
+                hostile_case(&d, idx, acc);
+            },
+        );
+        let l5 = [0.0, 1.0, -1.0, 1e-6, 1e6];
+        if ctx.thorough() {
+            ctx.lattice(
+                "hostile 3x3, mixed scale: all matrices over {0,1,-1,1e-6,1e6}",
+                pow(5, 9),
+                |idx| format!("{:?}", mat_from(idx, 3, &l5)),
+                |idx, acc| {
+                    let d = mat_from(idx, 3, &l5);
+                    hostile_case(&d, idx, acc);
+                },
+            );
+        } else {
+            // quick: the neighbourhoods (<= 2 changed entries) of three members on which the recurrence residual of
+            // BiCGSTAB parts company with the true residual after a near breakdown (found by the full lattice)
+            let bases: Vec<D> = vec![
+                vec![vec![0.0, 1e6, 1e-6], vec![1e6, 1e-6, 1e6], vec![1e-6, 0.0, 1e6]],
+                vec![vec![1e-6, 1e-6, 0.0], vec![1e6, 1e6, 1e6], vec![0.0, 1.0, 0.0]],
+                vec![vec![1.0, 0.0, 1e-6], vec![1.0, 1e-6, 1.0], vec![1e-6, 1.0, 0.0]],
+            ];
+            let devs = deviations(9, 5, 2);
+            for (bi, base) in bases.into_iter().enumerate() {
+                let devs = devs.clone();
+                ctx.lattice(
+                    &format!("hostile 3x3, mixed scale: <= 2 deviations over {{0,1,-1,1e-6,1e6}} from near-breakdown member #{}", bi),
+                    devs.len() as u64,
+                    |idx| format!("{:?}", devs[idx as usize]),
+                    |idx, acc| {
+                        let mut d = base.clone();
+                        for &(p, a) in &devs[idx as usize] {
+                            d[p / 3][p % 3] = l5[a];
+                        }
+                        hostile_case(&d, idx, acc);
+                    },
+                );
+            }
+        }
+    }
     let dev_d = ctx.pick(2, 3);
     let devs = deviations(9, 6, dev_d);
     for (bname, base) in bases() {
